@@ -12,7 +12,7 @@
 //! `thread_started`, `thread_finished` and `gate(Gate::Join)`.
 
 use std::cell::Cell;
-use std::sync::{Condvar, Mutex};
+use std::sync::{Arc, Condvar, Mutex};
 
 #[derive(Clone, Debug, PartialEq, Eq)]
 pub enum Gate {
@@ -83,10 +83,11 @@ struct Inner {
     report: Report,
     horizon: usize,
     aborting: bool,
+    /// one condition variable per thread: only the granted thread is woken
+    cvs: Vec<Arc<Condvar>>,
 }
 
 static CTL: Mutex<Option<Inner>> = Mutex::new(None);
-static CV: Condvar = Condvar::new();
 
 thread_local! {
     static MY_ID: Cell<Option<usize>> = const { Cell::new(None) };
@@ -113,6 +114,7 @@ pub fn begin(prefix: Vec<usize>, horizon: usize) {
         report: Report::default(),
         horizon,
         aborting: false,
+        cvs: vec![Arc::new(Condvar::new())],
     });
     MY_ID.with(|c| c.set(Some(0)));
 }
@@ -126,14 +128,14 @@ pub fn end() -> Report {
         inner.threads[0].state = TState::Finished;
         schedule_if_quiescent(inner);
     }
-    CV.notify_all();
     loop {
         let inner = g.as_mut().unwrap();
         let all_done = inner.threads.iter().all(|t| t.state == TState::Finished);
         if all_done {
             break;
         }
-        g = CV.wait(g).unwrap();
+        let cv = inner.cvs[0].clone();
+        g = cv.wait(g).unwrap();
     }
     let mut inner = g.take().unwrap();
     inner.active = false;
@@ -191,6 +193,7 @@ pub fn thread_created() -> usize {
     let inner = g.as_mut().expect("thread created outside of an execution");
     inner.threads.push(ThreadInfo { state: TState::Running, native: 0 });
     inner.arrivals.push(0);
+    inner.cvs.push(Arc::new(Condvar::new()));
     inner.threads.len() - 1
 }
 pub fn set_native(id: usize, native: u64) {
@@ -213,10 +216,12 @@ pub fn thread_finished() {
         if let Some(inner) = g.as_mut() {
             inner.threads[id].state = TState::Finished;
             schedule_if_quiescent(inner);
+            if inner.threads.iter().all(|t| t.state == TState::Finished) {
+                inner.cvs[0].notify_one();
+            }
         }
     }
     MY_ID.with(|c| c.set(None));
-    CV.notify_all();
 }
 
 fn enabled(inner: &Inner, gate: &Gate) -> bool {
@@ -296,6 +301,7 @@ fn schedule_if_quiescent(inner: &mut Inner) {
             inner.report.trace.push(ev);
         }
     }
+    inner.cvs[t].notify_one();
     inner.last_run = Some(t);
 }
 
@@ -314,15 +320,15 @@ pub fn gate(gate: Gate) {
         inner.threads[id].state = TState::AtGate { gate, granted: false };
         schedule_if_quiescent(inner);
     }
-    CV.notify_all();
     loop {
-        {
+        let cv = {
             let inner = g.as_mut().unwrap();
             if let TState::AtGate { granted: true, .. } = inner.threads[id].state {
                 inner.threads[id].state = TState::Running;
                 return;
             }
-        }
-        g = CV.wait(g).unwrap();
+            inner.cvs[id].clone()
+        };
+        g = cv.wait(g).unwrap();
     }
 }
